@@ -102,3 +102,6 @@ func H05h_ReusedOptions_RevocationWithoutCollateral() {
 	vp.Assert("revocation-without-collateral-fails-on-a-used-options-value", err != nil)
 	vp.Assert("and-fetches-nothing", len(w.getter.urls) == n)
 }
+
+// thorough tier: the CRL conditions on a used options value, two distribution points and revoked entries
+func T05i_ReusedOptions_2dist_2rev() { h05u(2, 2, true) }
